@@ -151,10 +151,11 @@ CLAIMED: dict[str, tuple[str, str, str, str, str]] = {
         "DESIGN §5 C10",
     ),
     "C14": (
-        "proof",
-        "Proof-level for the clause 'HUGR bound is Copyable iff the Guppy type is copyable': the expression trees of "
-        "TypeBase.linear/affine/hugr_bound and TypeParam.to_hugr are evaluated on all boolean assignments (exhaustive, 6 "
-        "obligations). The rest is decided at 'other' level and reported in the same evidence: the structural copy/drop rule "
+        "other",
+        "Claimed at 'other' level as a whole (the property has a known finding: phantom type parameters of structs, R-C14.7). "
+        "One clause is decided exhaustively: 'the declared HUGR bound is Copyable iff the Guppy type is copyable' -- the expression "
+        "trees of TypeBase.linear/affine/hugr_bound and TypeParam.to_hugr are evaluated on all boolean assignments (all four "
+        "requirement combinations of a type parameter). The rest: the structural copy/drop rule "
         "interpreted on all argument/field lists up to length 2, copy/drop sibling alpha-equivalence, the builtin intrinsic "
         "table, and the drop-insertion obligations (affine type list, recursion of requires_drop, per-port decision, must-call).",
         "Trusted: ast parser, gsa/absint/pyeval.py; classes that override hugr_bound with a constant are checked separately "
